@@ -80,6 +80,18 @@ var c16 = newChk("C16", "relay-chain",
 		inner := gen.ToLibMsg(it).(*dhcpv6.Message)
 		reply := gen.ToLibMsg(rt).(*dhcpv6.Message)
 		d := len(c.Levels)
+		// depth 0: decapsulating something that is not a relay message gives it back (documented), at any index
+		if back, err := dhcpv6.DecapsulateRelay(inner); err != nil || back != dhcpv6.DHCPv6(inner) {
+			return obs.Failf("C16/decapsulate-plain-message", "the message itself", "err=%v", err)
+		}
+		for _, idx := range []int{-1, 0, 1, 7} {
+			if back, err := dhcpv6.DecapsulateRelayIndex(inner, idx); err != nil || back != dhcpv6.DHCPv6(inner) {
+				return obs.Failf("C16/decapsulate-index/plain-message", "the message itself", "index %d: err=%v got %v", idx, err, back)
+			}
+		}
+		if im0, err := inner.GetInnerMessage(); err != nil || im0 != inner {
+			return obs.Failf("C16/inner-message/plain-message", "the message itself", "err=%v", err)
+		}
 		// build the RELAY-FORW chain level by level (Levels[0] is the innermost relay)
 		var cur dhcpv6.DHCPv6 = inner
 		for k, lv := range c.Levels {
